@@ -20,6 +20,7 @@ import (
 	"sort"
 	"strings"
 	"sync"
+	"sync/atomic"
 	"testing"
 	"time"
 
@@ -29,6 +30,8 @@ import (
 	"github.com/foxcpp/maddy/framework/exterrors"
 	mlog "github.com/foxcpp/maddy/framework/log"
 	"github.com/foxcpp/maddy/framework/module"
+	_ "github.com/foxcpp/maddy/internal/modify"
+	_ "github.com/foxcpp/maddy/internal/table"
 	"github.com/foxcpp/maddy/internal/target/queue"
 	"github.com/foxcpp/maddy/internal/zzverif/mx"
 	"golang.org/x/net/idna"
@@ -482,6 +485,10 @@ type rcptPlan struct {
 	EffSpell  string
 	OrigSpell string
 	chained   bool // Orig is the address the previous recipient was rewritten to
+	// group B: the rewrite is one 1-to-1 step in one scope (then: which), so
+	// that the next recipient can be chained onto it
+	single bool
+	scope  int
 }
 
 type msgPlan struct {
@@ -492,6 +499,10 @@ type msgPlan struct {
 	FromAlt   *mailbox // rewritten envelope sender (From), when different from OriginalFrom
 	Rcpts     []rcptPlan
 	HeaderRaw []byte
+	// group B: the addresses the client gives in RCPT TO, in order (Rcpts then
+	// lists what the pipeline makes of them, i.e. what the queue is given)
+	Client []string
+	src    *srcBlockPlan
 }
 
 type scenario struct {
@@ -511,6 +522,28 @@ type scenario struct {
 	faultCounter int
 	chainedRcpts int // recipients whose client-supplied address is another recipient's rewrite target
 	localKinds   map[string]int
+
+	// documented queue options that earlier versions left at one value
+	// (stream "c18-queue-options")
+	QDebug        bool   // debug yes
+	AutogenDomain string // autogenerated_msg_domain
+	NoBounce      bool   // no bounce { } block: no report can be generated at all
+
+	// group B (message reaches the queue through a real pipeline)
+	pipe      *pipePlan
+	forcePerm bool           // every injected failure is permanent (the queue has its production retry delays)
+	rwKind    map[int]string // client-supplied mailbox id -> how the pipeline rewrites it
+}
+
+var autogenDomains = []string{"reports.example.org", "example.org", "mx.example.org", "bounces.mail.example.net", "\u043f\u043e\u0447\u0442\u0430.example"}
+
+// genQueueOptions draws the queue options from a stream of their own so that
+// the scenarios of earlier harness versions keep their place.
+func genQueueOptions(sc *scenario, seed uint64, ci int) {
+	p3 := prng.New(seed, uint64(ci), "c18-queue-options")
+	sc.QDebug = p3.Chance(1, 2)
+	sc.AutogenDomain = autogenDomains[p3.Weighted([]int{4, 2, 2, 2, 1})]
+	sc.NoBounce = p3.Chance(1, 16)
 }
 
 func genHeader(p *prng.R, utf8 bool) []byte {
@@ -652,6 +685,7 @@ func genScenario(p *prng.R, seed uint64, ci int) *scenario {
 		m.HeaderRaw = genHeader(p, sc.UTF8)
 		sc.Msgs = append(sc.Msgs, m)
 	}
+	genQueueOptions(sc, seed, ci)
 	return sc
 }
 
@@ -699,7 +733,11 @@ func (pl *planner) decide(pt mx.Point) *errSpec {
 	attKind := pa.Weighted([]int{6, 1, 1, 1}) // per-recipient, start, body, commit
 	var e *errSpec
 	pickClass := func(q *prng.R) string {
-		return []string{mx.Temp, mx.Perm, mx.Unclassified}[q.Weighted([]int{4, 4, 2})]
+		c := []string{mx.Temp, mx.Perm, mx.Unclassified}[q.Weighted([]int{4, 4, 2})]
+		if pl.sc.forcePerm {
+			return mx.Perm
+		}
+		return c
 	}
 	pl.sc.faultCounter++
 	n := pl.sc.faultCounter
@@ -810,6 +848,11 @@ func waitIdle(dir string, limit time.Duration) (bool, []string) {
 const (
 	quickCases    = 8000
 	thoroughCases = 60000
+	// group B: the message reaches the queue through a real pipeline built
+	// from configuration text (see pipeline_test.go)
+	groupBBase     = 1_000_000
+	quickCasesB    = 2400
+	thoroughCasesB = 16000
 )
 
 func TestVerif(t *testing.T) {
@@ -824,10 +867,28 @@ func TestVerif(t *testing.T) {
 	n := r.N(quickCases, thoroughCases)
 	for i := 0; i < n; i++ {
 		r.Run(i, fmt.Sprintf("report-%d", i), func(c *rep.Case) {
-			runCase(t, r, c, i, capture)
+			runCase(t, r, c, i, capture, false)
+		})
+	}
+	nb := r.N(quickCasesB, thoroughCasesB)
+	for i := 0; i < nb; i++ {
+		idx := groupBBase + i
+		r.Run(idx, fmt.Sprintf("pipeline-%d", i), func(c *rep.Case) {
+			runCase(t, r, c, idx, capture, true)
 		})
 	}
 }
+
+// countOut is the log output of the queues: it discards everything and counts
+// the debug lines, so that a run can show that "debug yes" was really on.
+type countOut struct{ debugLines atomic.Int64 }
+
+func (o *countOut) Write(stamp time.Time, debug bool, msg string) {
+	if debug {
+		o.debugLines.Add(1)
+	}
+}
+func (o *countOut) Close() error { return nil }
 
 type expReport struct {
 	msg     *msgPlan
@@ -846,12 +907,17 @@ type witness struct {
 	Log      []string `json:"log,omitempty"`
 }
 
-func runCase(t *testing.T, r *rep.Reporter, c *rep.Case, ci int, capture *logCapture) {
+func runCase(t *testing.T, r *rep.Reporter, c *rep.Case, ci int, capture *logCapture, groupB bool) {
 	capture.mu.Lock()
 	capture.lines = nil
 	capture.mu.Unlock()
 	p := prng.New(r.Seed(), uint64(ci), "c18")
-	sc := genScenario(p, r.Seed(), ci)
+	var sc *scenario
+	if groupB {
+		sc = genScenarioB(p, r.Seed(), ci)
+	} else {
+		sc = genScenario(p, r.Seed(), ci)
+	}
 	pl := &planner{seed: r.Seed(), ci: ci, sc: sc}
 
 	lg := mx.NewLog()
@@ -891,12 +957,29 @@ func runCase(t *testing.T, r *rep.Reporter, c *rep.Case, ci int, capture *logCap
 		t.Fatal(err)
 	}
 	defer os.RemoveAll(dir)
-	q, err := queue.VerifNewQueue(queue.VerifOpts{
-		Dir: dir, Target: mainT, Bounce: bounceT, MaxTries: sc.MaxTries,
-		Parallelism: sc.Parallelism, Hostname: sc.Hostname, AutogenMsgDomain: "reports.example.org",
-	})
-	if err != nil {
-		t.Fatal(err)
+	qlog := &countOut{}
+	var q *queue.Queue
+	var pipe module.DeliveryTarget
+	if groupB {
+		// the queue is initialised from configuration text (Queue.Init), the
+		// pipeline in front of it is built from configuration text as well
+		q, pipe, err = buildFromConfig(r, sc, ci, dir, mainT, bounceT, qlog)
+		if err != nil {
+			t.Fatalf("harness: %v", err)
+		}
+	} else {
+		opts := queue.VerifOpts{
+			Dir: dir, Target: mainT, Bounce: bounceT, MaxTries: sc.MaxTries,
+			Parallelism: sc.Parallelism, Hostname: sc.Hostname, AutogenMsgDomain: sc.AutogenDomain,
+			Log: &mlog.Logger{Out: qlog, Name: "queue", Debug: sc.QDebug},
+		}
+		if sc.NoBounce {
+			opts.Bounce = nil
+		}
+		q, err = queue.VerifNewQueue(opts)
+		if err != nil {
+			t.Fatal(err)
+		}
 	}
 	closed := false
 	defer func() {
@@ -928,6 +1011,27 @@ func runCase(t *testing.T, r *rep.Reporter, c *rep.Case, ci int, capture *logCap
 		hdr, err := readHeader(m.HeaderRaw)
 		if err != nil {
 			t.Fatalf("harness: generated header does not parse: %v", err)
+		}
+		if groupB {
+			// what an endpoint does: OriginalFrom = MAIL FROM, then MAIL / RCPT / DATA into the pipeline
+			meta := &module.MsgMetadata{ID: m.ID, OriginalFrom: m.OrigFrom}
+			meta.SMTPOpts.UTF8 = sc.UTF8
+			d, err := pipe.Start(ctx, meta, m.OrigFrom)
+			if err != nil {
+				t.Fatalf("harness: pipeline refused MAIL FROM %q: %v\n%s", m.OrigFrom, err, sc.pipe.text)
+			}
+			for _, rc := range m.Client {
+				if err := d.AddRcpt(ctx, rc, smtp.RcptOptions{}); err != nil {
+					t.Fatalf("harness: pipeline refused RCPT TO %q: %v\n%s", rc, err, sc.pipe.text)
+				}
+			}
+			if err := d.Body(ctx, hdr, buffer.MemoryBuffer{Slice: []byte("body of " + m.ID + "\r\n")}); err != nil {
+				t.Fatalf("harness: pipeline refused the body: %v", err)
+			}
+			if err := d.Commit(ctx); err != nil {
+				t.Fatalf("harness: pipeline Commit: %v", err)
+			}
+			continue
 		}
 		var rcpts []string
 		orig := map[string]string{}
@@ -1008,6 +1112,46 @@ func runCase(t *testing.T, r *rep.Reporter, c *rep.Case, ci int, capture *logCap
 		}
 	}
 
+	if sc.QDebug {
+		r.Count("queues_with_debug_logging_on", 1)
+		r.Count("queue_debug_log_lines", qlog.debugLines.Load())
+	}
+
+	// ---- group B: the recipients the queue handed to its target must be the ones the harness's
+	// model of the generated pipeline configuration predicts; if not, the expectation below
+	// would be built on sand (a pipeline that rewrites differently is C04/C09's subject)
+	if groupB {
+		for _, s := range mx.Summaries(phase1) {
+			if s.Target != "main" {
+				continue
+			}
+			var m *msgPlan
+			for _, x := range sc.Msgs {
+				if x.ID == origID(s.MsgID) {
+					m = x
+				}
+			}
+			if m == nil {
+				continue
+			}
+			planned := map[string]bool{}
+			for _, rp := range m.Rcpts {
+				planned[rp.EffSpell] = true
+			}
+			seen := append([]string{}, s.Accepted...)
+			for a := range s.Refused {
+				seen = append(seen, a)
+			}
+			for _, a := range seen {
+				if !planned[a] {
+					c.Inconclusive(fmt.Sprintf("the pipeline handed the queue recipient %q for message %s, which the harness's model of this configuration does not predict (planned %v)\n%s", a, m.ID, keysOf(planned), sc.pipe.text))
+					c.Done("model-mismatch", false)
+					return
+				}
+			}
+		}
+	}
+
 	// ---- expected reports from the observed history of the main target
 	expected := expectedReports(sc, phase1)
 	nExp := 0
@@ -1015,6 +1159,15 @@ func runCase(t *testing.T, r *rep.Reporter, c *rep.Case, ci int, capture *logCap
 		if e.msg.Sender != nil {
 			nExp++
 		}
+	}
+
+	// ---- a queue without a bounce { } block cannot report anything; what is left to judge is
+	// that it drained and did not crash on the way (both judged above)
+	if sc.NoBounce {
+		r.Count("queues_without_bounce_block", 1)
+		r.Count("failure_sets_in_queues_without_bounce_block", int64(len(expected)))
+		c.Done(fmt.Sprintf("no-bounce-block groupB=%v utf8=%v msgs=%d exp=%d", groupB, sc.UTF8, len(sc.Msgs), min(len(expected), 4)), len(expected) > 0)
+		return
 	}
 
 	// ---- observed bounce deliveries
@@ -1087,6 +1240,15 @@ func runCase(t *testing.T, r *rep.Reporter, c *rep.Case, ci int, capture *logCap
 			continue
 		}
 		r.Count("reports_parsed", 1)
+		if sc.QDebug {
+			r.Count("reports_parsed_from_queues_with_debug_logging_on", 1)
+		}
+		if !pureASCII(sc.AutogenDomain) {
+			r.Count("reports_parsed_with_idn_autogenerated_msg_domain", 1)
+		}
+		if groupB {
+			r.Count("pipeline_reports_parsed", 1)
+		}
 		rp := mx.ParseReport(b.Header, b.Body)
 		judgeReport(r, sc, m, b, rp, expected, viol)
 	}
@@ -1148,7 +1310,12 @@ func runCase(t *testing.T, r *rep.Reporter, c *rep.Case, ci int, capture *logCap
 
 	// ---- evidence
 	nonTrivial := nExp > 0 || nullFailed > 0
-	shape := fmt.Sprintf("utf8=%v partial=%v tries=%d bounce=%s loop=%v msgs=%d exp=%d null=%d", sc.UTF8, sc.Partial, sc.MaxTries, sc.BounceFail, sc.Loop && loopSubmitted > 0, len(sc.Msgs), min(nExp, 4), min(nullFailed, 2))
+	if groupB {
+		r.Distinct("queue_config_shapes", sc.pipe.queueShape)
+		r.Distinct("pipeline_config_shapes", sc.pipe.pipeShape)
+	}
+	shape := fmt.Sprintf("groupB=%v debug=%v ", groupB, sc.QDebug)
+	shape += fmt.Sprintf("utf8=%v partial=%v tries=%d bounce=%s loop=%v msgs=%d exp=%d null=%d", sc.UTF8, sc.Partial, sc.MaxTries, sc.BounceFail, sc.Loop && loopSubmitted > 0, len(sc.Msgs), min(nExp, 4), min(nullFailed, 2))
 	for _, e := range expected {
 		shape += fmt.Sprintf("|a%d:%d", e.attempt, len(e.rcpts))
 	}
@@ -1179,6 +1346,15 @@ func tail(s []string, n int) []string {
 	return s
 }
 
+func keysOf(m map[string]bool) []string {
+	var out []string
+	for k := range m {
+		out = append(out, k)
+	}
+	sort.Strings(out)
+	return out
+}
+
 func keys(m map[int][]*errSpec) []int {
 	var out []int
 	for k := range m {
@@ -1190,7 +1366,10 @@ func keys(m map[int][]*errSpec) []int {
 
 func describe(sc *scenario) string {
 	var b strings.Builder
-	fmt.Fprintf(&b, "utf8=%v max_tries=%d partial=%v hostname=%s bounce_fail=%s/%s loop=%v;", sc.UTF8, sc.MaxTries, sc.Partial, sc.Hostname, sc.BounceFail, sc.BounceClass, sc.Loop)
+	fmt.Fprintf(&b, "utf8=%v max_tries=%d partial=%v hostname=%s bounce_fail=%s/%s loop=%v debug=%v autogenerated_msg_domain=%s bounce_block=%v;", sc.UTF8, sc.MaxTries, sc.Partial, sc.Hostname, sc.BounceFail, sc.BounceClass, sc.Loop, sc.QDebug, sc.AutogenDomain, !sc.NoBounce)
+	if sc.pipe != nil {
+		fmt.Fprintf(&b, " QUEUE CONFIG:\n%s\nPIPELINE CONFIG:\n%s\nREFERENCED TABLES:\n%s\n", sc.pipe.queueText, sc.pipe.text, sc.pipe.tablesText)
+	}
 	for _, m := range sc.Msgs {
 		fmt.Fprintf(&b, " msg %s from=%q orig_from=%q rcpts=[", m.ID, m.From, m.OrigFrom)
 		for _, rp := range m.Rcpts {
@@ -1413,6 +1592,17 @@ func judgeReport(r *rep.Reporter, sc *scenario, m *msgPlan, b *mx.DeliverySummar
 	}
 	match.matched = true
 	r.Count("reports_matched", 1)
+	if sc.pipe != nil {
+		for id := range match.rcpts {
+			k := sc.rwKind[id]
+			if k == "" {
+				k = "not-rewritten"
+			}
+			for _, part := range strings.Split(k, ",") {
+				r.Count("pipeline_reported_rcpt_"+part, 1)
+			}
+		}
+	}
 
 	// --- status codes
 	for gi, g := range rp.Rcpts {
